@@ -65,5 +65,20 @@ Definition ek_ok (c : case14own) : bool :=
 
 (* a transfer RETURNS (a count, success or an error): a panic (rk 11) or a transfer that never ends (12) is none
    of the outcomes the property allows *)
+(* progress of the exact forms (Spec/C14.v [progress_ok]) for these endpoints: after its script a descriptor makes
+   the REAL call (Full), an in-memory endpoint's calls are not observable (none listed); what the stream has left:
+   a reader its remaining source bytes, a &mut [u8] its remaining room, every other sink no bound *)
+Definition made_own (c : case14own) (calls : N) : list beh :=
+  map beh_of_f (firstn (N.to_nat calls) (w_script c ++ repeat FFull (N.to_nat calls))).
+Definition left_own (c : case14own) (moved : N) : option N :=
+  if is_read (w_op c) then Some (nlen (src_of (w_ek c) (w_content c) (w_pos c)) - moved)
+  else match w_ek c with EMSliceW => Some (nlen (w_content c) - w_pos c - moved) | _ => None end.
+Definition progress14own (c : case14own) (y : obs14own) : bool :=
+  let o := obs14_of c y in
+  let made := made_own c (y_calls y) in
+  if progress_applies (w_target c) (w_addr c) (w_count c) (w_op c) (y_rk y) made
+  then progress_ok (w_target c) (w_mem c) (w_addr c) (w_count c) (o_moved o) (y_calls y) made (left_own c (o_moved o))
+  else true.
+
 Definition ok_C14own (c : case14own) (y : obs14own) : bool :=
-  ek_ok c && (y_rk y <? 11) && ok_C14 (case14_of c) (obs14_of c y).
+  ek_ok c && (y_rk y <? 11) && ok_C14_core (case14_of c) (obs14_of c y) && progress14own c y.
